@@ -148,8 +148,15 @@ theorem reissue_go_spec : ∀ (l : List (Nat × Nat)) (s s' : St) (pairs : List 
             simp_all
 
 
+/-- full description of a picked entry: ensemble, path, move stream, engine stream -/
+def pkFull (p : Picked) : Int × Nat × Stream × Stream := (p.ens, p.pn, p.rgen, p.rgenEng)
+
+/-- `mkPicked.go` on pairs that all carry a path: entry `i` gets the grandchild `j + i` of the job's child stream
+    and, as engine stream, that grandchild's child 0 -/
 theorem mkPicked_go_some (child : Stream) : ∀ (l : List (Int × Nat)) (j : Nat) (ps : List Picked),
-    mkPicked.go child j (l.map (fun x => (x.1, some x.2))) = .ok ps → ps.map (fun p => (p.ens, p.pn)) = l := by
+    mkPicked.go child j (l.map (fun x => (x.1, some x.2))) = .ok ps →
+    ps.map pkFull = (l.zipIdx j).map (fun xi =>
+      (xi.1.1, xi.1.2, spawnStream child xi.2, spawnStream (spawnStream child xi.2) 0)) := by
   intro l
   induction l with
   | nil => intro j ps h; simp only [List.map_nil, mkPicked.go, Except.ok.injEq] at h; subst h; rfl
@@ -162,20 +169,37 @@ theorem mkPicked_go_some (child : Stream) : ∀ (l : List (Int × Nat)) (j : Nat
     · rename_i ps' hgo
       simp only [Except.ok.injEq] at h
       subst h
-      simp only [List.map_cons, List.cons.injEq, true_and]
-      exact ih _ _ hgo
+      simp only [List.map_cons, List.zipIdx_cons, List.cons.injEq]
+      exact ⟨rfl, ih _ _ hgo⟩
 
-/-- one call of `pick_lock` while recorded jobs are left: the job handed out is the first recorded one
-    (its ensembles and paths, in order), no random draw is made, the record is consumed, the job is put
-    on record again (`locked`), it takes the next spawn ordinal, and its slots are locked with its paths. -/
+/-- the (slot, path) pairs of a recorded job -/
+def recPairs (r : List Nat × List Nat) : List (Nat × Nat) := r.1.zip r.2
+/-- the (ensemble, path) pairs of the job `pick_lock` must hand out for it -/
+def recJob (r : List Nat × List Nat) : List (Int × Nat) := (recPairs r).map (fun x => ((x.1 : Int) - 1, x.2))
+/-- the same with the streams of the job whose child stream has ordinal `ord` under entropy `ent`:
+    move stream `SeedSequence(ent, (ord, j))`, engine stream `SeedSequence(ent, (ord, j, 0))` -/
+def recJobFull (ent ord : Nat) (r : List Nat × List Nat) : List (Int × Nat × Stream × Stream) :=
+  (recPairs r).zipIdx.map (fun xi =>
+    ((xi.1.1 : Int) - 1, xi.1.2, ({ entropy := ent, key := [ord, xi.2] } : Stream),
+     ({ entropy := ent, key := [ord, xi.2, 0] } : Stream)))
+/-- the entry appended to `locked` for it -/
+def recEntry (r : List Nat × List Nat) : List Int × List Nat := (r.1.map (fun (e : Nat) => (e : Int) - 1), r.2)
+
+/-- one call of `pick_lock` while recorded jobs (with ordinals) are left: the job handed out is the first recorded
+    one (its ensembles and paths, in order) **with the streams of the recorded ordinal**, no random draw is made,
+    the record is consumed, the job is put on record again with the same ordinal, the spawn counter is untouched,
+    and its slots are locked with its paths. -/
 theorem pickLock_reissue {s s' : St} {o : PickOutcome} {sv : Nat} {ps : List Picked} {ds : List Draw}
-    (es ts : List Nat) (rest : List (List Nat × List Nat)) (H : List (Nat × Nat))
-    (hl0 : s.locked0 = (es, ts) :: rest) (hlen : s.trajs.length = s.locks.length) (hH : Held s H)
+    (es ts : List Nat) (rest : List (List Nat × List Nat)) (ord : Nat) (ordRest : List (Option Nat))
+    (H : List (Nat × Nat))
+    (hl0 : s.locked0 = (es, ts) :: rest) (hord : s.locked0Ord = some ord :: ordRest)
+    (hlen : s.trajs.length = s.locks.length) (hH : Held s H)
     (hnd : ((H ++ es.zip ts).map (·.2)).Nodup)
     (h : pickLock s o sv = .ok (s', ps, ds)) :
-    ps.map (fun p => (p.ens, p.pn)) = (es.zip ts).map (fun x => ((x.1 : Int) - 1, x.2)) ∧ ds = [] ∧
-      s'.locked0 = rest ∧ s'.locked = s.locked ++ [(es.map (fun (e : Nat) => (e : Int) - 1), ts)] ∧
-      s'.spawned = s.spawned + 1 ∧ s'.mainDraws = s.mainDraws ∧
+    ps.map pkFull = recJobFull s.entropy ord (es, ts) ∧ ds = [] ∧
+      s'.locked0 = rest ∧ s'.locked0Ord = ordRest ∧
+      s'.locked = s.locked ++ [recEntry (es, ts)] ∧ s'.lockedOrd = s.lockedOrd ++ [ord] ∧
+      s'.spawned = s.spawned ∧ s'.mainDraws = s.mainDraws ∧ s'.entropy = s.entropy ∧
       Held s' (H ++ es.zip ts) ∧ s'.trajs.length = s'.locks.length := by
   unfold pickLock at h
   rw [hl0] at h
@@ -184,36 +208,52 @@ theorem pickLock_reissue {s s' : St} {o : PickOutcome} {sv : Nat} {ps : List Pic
   split at h
   · exact absurd h (by simp)
   · rename_i s1 pairs hre
-    have hspec := reissue_go_spec (es.zip ts) { s with locked0 := rest } s1 pairs H hlen hH hnd hre
+    have hspec := reissue_go_spec (es.zip ts) { s with locked0 := rest, locked0Ord := s.locked0Ord.tail } s1 pairs H
+      hlen hH hnd hre
     obtain ⟨hp, hH1, hlen1, hfr⟩ := hspec
+    have hro : reissueOrd s s1 = ord := by simp [reissueOrd, hord]
+    have hsome : ((s.locked0Ord.head?).join).isSome = true := by simp [hord]
+    rw [hro] at h
     split at h
     · exact absurd h (by simp)
     · rename_i ps' hmk
       simp only [Except.ok.injEq, Prod.mk.injEq] at h
       obtain ⟨rfl, rfl, rfl⟩ := h
       have hfields : s1.locked = s.locked ∧ s1.spawned = s.spawned ∧ s1.mainDraws = s.mainDraws ∧
-          s1.locked0 = rest ∧ s1.entropy = s.entropy := by
+          s1.locked0 = rest ∧ s1.entropy = s.entropy ∧ s1.lockedOrd = s.lockedOrd ∧
+          s1.locked0Ord = s.locked0Ord.tail := by
         cases s1; cases s
         simp only [St.mk.injEq] at hfr
         simp_all
-      obtain ⟨hk, hsp, hmd, hl0', hent⟩ := hfields
-      have hps : ps'.map (fun p => (p.ens, p.pn)) = (es.zip ts).map (fun x => ((x.1 : Int) - 1, x.2)) := by
-        unfold mkPicked at hmk
+      obtain ⟨hk, hsp, hmd, hl0', hent, hlo, hl0o⟩ := hfields
+      have hps : ps'.map pkFull = recJobFull s.entropy ord (es, ts) := by
+        unfold mkPickedAt mkPicked at hmk
         rw [hp] at hmk
         have : (es.zip ts).map (fun x => ((x.1 : Int) - (off : Int), some x.2)) =
             ((es.zip ts).map (fun x => ((x.1 : Int) - 1, x.2))).map (fun x => (x.1, some x.2)) := by
           simp [off]
         rw [this] at hmk
-        exact mkPicked_go_some _ _ _ _ hmk
-      refine ⟨hps, rfl, hl0', ?_, ?_, hmd, hH1, hlen1⟩
-      · simp only [hk, off]
+        have h1 := mkPicked_go_some _ _ _ _ hmk
+        rw [h1]
+        simp only [recJobFull, recPairs, List.zipIdx_map, List.map_map, mainStream, spawnStream, hent]
+        apply List.map_congr_left
+        intro xi _
+        simp
+      refine ⟨hps, rfl, ?_, ?_, ?_, ?_, ?_, ?_, ?_, ?_, ?_⟩
+      · simp only [reissued]; exact hl0'
+      · simp only [reissued]; rw [hl0o, hord]; rfl
+      · simp only [reissued, hk, recEntry, off]
         rfl
-      · simp only [hsp]
-
+      · simp only [reissued, hlo, hro]
+      · simp only [reissued, hsome, if_true]; exact hsp
+      · simp only [reissued]; exact hmd
+      · simp only [reissued]; exact hent
+      · intro x hx; simp only [reissued]; exact hH1 x hx
+      · simp only [reissued]; exact hlen1
 
 theorem prepTail_ok {s1 s' : St} {ps : List Picked} {ds ds' : List Draw} {pin? : Option Nat} {job : Job}
     (h : prepTail s1 ps ds pin? = .ok (s', job, ds')) :
-    (∃ occ', s' = { s1 with occ := occ' }) ∧ job.picked.map (fun p => (p.ens, p.pn)) = ps.map (fun p => (p.ens, p.pn)) := by
+    (∃ occ', s' = { s1 with occ := occ' }) ∧ job.picked.map pkFull = ps.map pkFull := by
   unfold prepTail at h
   split at h
   · exact absurd h (by simp)
@@ -227,11 +267,13 @@ theorem prepTail_ok {s1 s' : St} {ps : List Picked} {ds ds' : List Draw} {pin? :
         obtain ⟨h1, h2, _⟩ := h
         subst h1; subst h2
         refine ⟨⟨occ', rfl⟩, ?_⟩
-        simp [List.map_map, Function.comp_def]
+        simp [List.map_map, Function.comp_def, pkFull]
 
 theorem initiate_fields (s : St) :
     (initiate s).1.locked0 = s.locked0 ∧ (initiate s).1.locked = s.locked ∧ (initiate s).1.trajs = s.trajs ∧
-      (initiate s).1.locks = s.locks := by
+      (initiate s).1.locks = s.locks ∧ (initiate s).1.locked0Ord = s.locked0Ord ∧
+      (initiate s).1.lockedOrd = s.lockedOrd ∧ (initiate s).1.spawned = s.spawned ∧
+      (initiate s).1.entropy = s.entropy := by
   unfold initiate
   split <;> simp
 
@@ -256,20 +298,24 @@ theorem initiate_go {s : St} (h : (initiate s).2 = true) :
 
 /-- **one iteration of the initiation loop after a restart, while recorded jobs are left** -/
 theorem start_reissue {y y' : Sys} {o : PickOutcome} {sv : Nat}
-    (es ts : List Nat) (rest : List (List Nat × List Nat)) (H : List (Nat × Nat))
-    (hl0 : y.s.locked0 = (es, ts) :: rest) (hlen : y.s.trajs.length = y.s.locks.length) (hH : Held y.s H)
+    (es ts : List Nat) (rest : List (List Nat × List Nat)) (ord : Nat) (ordRest : List (Option Nat))
+    (H : List (Nat × Nat))
+    (hl0 : y.s.locked0 = (es, ts) :: rest) (hord : y.s.locked0Ord = some ord :: ordRest)
+    (hlen : y.s.trajs.length = y.s.locks.length) (hH : Held y.s H)
     (hnd : ((H ++ es.zip ts).map (·.2)).Nodup)
     (h : sysStep y (.start o sv) = .ok y') :
     ∃ job, y'.jobs = y.jobs ++ [job] ∧
-      job.picked.map (fun p => (p.ens, p.pn)) = (es.zip ts).map (fun x => ((x.1 : Int) - 1, x.2)) ∧
-      y'.s.locked0 = rest ∧ y'.s.locked = y.s.locked ++ [(es.map (fun (e : Nat) => (e : Int) - 1), ts)] ∧
+      job.picked.map pkFull = recJobFull y.s.entropy ord (es, ts) ∧
+      y'.s.locked0 = rest ∧ y'.s.locked0Ord = ordRest ∧
+      y'.s.locked = y.s.locked ++ [recEntry (es, ts)] ∧ y'.s.lockedOrd = y.s.lockedOrd ++ [ord] ∧
+      y'.s.spawned = y.s.spawned ∧ y'.s.entropy = y.s.entropy ∧
       Held y'.s (H ++ es.zip ts) ∧ y'.s.trajs.length = y'.s.locks.length := by
   simp only [sysStep] at h
   split at h
   · exact absurd h (by simp)
   · rename_i hgo
     simp only [Bool.not_eq_true, Bool.not_eq_false] at hgo
-    obtain ⟨f0, fl, ft, fk⟩ := initiate_fields y.s
+    obtain ⟨f0, fl, ft, fk, f0o, flo, fsp, fen⟩ := initiate_fields y.s
     rw [prep_eq_tail] at h
     have hti : (initiate y.s).1.toinitiate ≥ 0 := by
       have := initiate_go hgo
@@ -285,47 +331,50 @@ theorem start_reissue {y y' : Sys} {o : PickOutcome} {sv : Nat}
       · rename_i s2 ps ds2 hpl
         have hH0 : Held (initiate y.s).1 H := by
           intro x hx; rw [fk, ft]; exact hH x hx
-        obtain ⟨h1, _, h3, h4, _, _, h7, h8⟩ := pickLock_reissue es ts rest H (by rw [f0]; exact hl0)
-          (by rw [ft, fk]; exact hlen) hH0 hnd hpl
+        obtain ⟨h1, _, h3, h3o, h4, h4o, h5, _, h6, h7, h8⟩ := pickLock_reissue es ts rest ord ordRest H
+          (by rw [f0]; exact hl0) (by rw [f0o]; exact hord) (by rw [ft, fk]; exact hlen) hH0 hnd hpl
         obtain ⟨⟨occ', hs3⟩, hj⟩ := prepTail_ok hprep
-        refine ⟨job, rfl, hj.trans h1, ?_, ?_, ?_, ?_⟩
+        refine ⟨job, rfl, ?_, ?_, ?_, ?_, ?_, ?_, ?_, ?_, ?_⟩
+        · rw [hj, h1, fen]
         · simp only [hs3]; exact h3
+        · simp only [hs3]; exact h3o
         · simp only [hs3]; rw [h4, fl]
+        · simp only [hs3]; rw [h4o, flo]
+        · simp only [hs3]; rw [h5, fsp]
+        · simp only [hs3]; rw [h6, fen]
         · intro x hx; simp only [hs3]; exact h7 x hx
         · simp only [hs3]; exact h8
 
-
-/-- the (slot, path) pairs of a recorded job -/
-def recPairs (r : List Nat × List Nat) : List (Nat × Nat) := r.1.zip r.2
-/-- the (ensemble, path) pairs of the job `pick_lock` must hand out for it -/
-def recJob (r : List Nat × List Nat) : List (Int × Nat) := (recPairs r).map (fun x => ((x.1 : Int) - 1, x.2))
-/-- the entry appended to `locked` for it -/
-def recEntry (r : List Nat × List Nat) : List Int × List Nat := (r.1.map (fun (e : Nat) => (e : Int) - 1), r.2)
-
-theorem reissue_run : ∀ (rec : List (List Nat × List Nat)) (starts : List (PickOutcome × Nat)) (y y' : Sys)
-    (rest : List (List Nat × List Nat)) (H : List (Nat × Nat)),
-    starts.length = rec.length → y.s.locked0 = rec ++ rest → y.s.trajs.length = y.s.locks.length → Held y.s H →
-    ((H ++ rec.flatMap recPairs).map (·.2)).Nodup →
+/-- **the re-issue chain**: `recs` = recorded jobs with their ordinals, in recorded order -/
+theorem reissue_run : ∀ (recs : List ((List Nat × List Nat) × Nat)) (starts : List (PickOutcome × Nat)) (y y' : Sys)
+    (rest : List (List Nat × List Nat)) (ordRest : List (Option Nat)) (H : List (Nat × Nat)),
+    starts.length = recs.length → y.s.locked0 = recs.map (·.1) ++ rest →
+    y.s.locked0Ord = recs.map (fun r => some r.2) ++ ordRest →
+    y.s.trajs.length = y.s.locks.length → Held y.s H →
+    ((H ++ recs.flatMap (fun r => recPairs r.1)).map (·.2)).Nodup →
     run y (starts.map (fun x => Ev.start x.1 x.2)) = .ok y' →
     ∃ jobs, y'.jobs = y.jobs ++ jobs ∧
-      jobs.map (fun j => j.picked.map (fun p => (p.ens, p.pn))) = rec.map recJob ∧
-      y'.s.locked0 = rest ∧ y'.s.locked = y.s.locked ++ rec.map recEntry ∧
-      Held y'.s (H ++ rec.flatMap recPairs) := by
-  intro rec
-  induction rec with
+      jobs.map (fun j => j.picked.map pkFull) = recs.map (fun r => recJobFull y.s.entropy r.2 r.1) ∧
+      y'.s.locked0 = rest ∧ y'.s.locked0Ord = ordRest ∧
+      y'.s.locked = y.s.locked ++ recs.map (fun r => recEntry r.1) ∧
+      y'.s.lockedOrd = y.s.lockedOrd ++ recs.map (·.2) ∧
+      y'.s.spawned = y.s.spawned ∧ y'.s.entropy = y.s.entropy ∧
+      Held y'.s (H ++ recs.flatMap (fun r => recPairs r.1)) := by
+  intro recs
+  induction recs with
   | nil =>
-    intro starts y y' rest H hl h0 _ hH _ hrun
+    intro starts y y' rest ordRest H hl h0 h0o _ hH _ hrun
     have : starts = [] := List.eq_nil_of_length_eq_zero (by simpa using hl)
     subst this
     simp only [List.map_nil, run, Except.ok.injEq] at hrun
     subst hrun
-    exact ⟨[], by simp, rfl, by simpa using h0, by simp, by simpa using hH⟩
-  | cons r rec ih =>
-    intro starts y y' rest H hl h0 hlen hH hnd hrun
+    exact ⟨[], by simp, rfl, by simpa using h0, by simpa using h0o, by simp, by simp, rfl, rfl, by simpa using hH⟩
+  | cons r recs ih =>
+    intro starts y y' rest ordRest H hl h0 h0o hlen hH hnd hrun
     cases starts with
     | nil => simp at hl
     | cons st starts =>
-      obtain ⟨es, ts⟩ := r
+      obtain ⟨⟨es, ts⟩, ord⟩ := r
       simp only [List.map_cons, run] at hrun
       split at hrun
       · exact absurd hrun (by simp)
@@ -334,33 +383,37 @@ theorem reissue_run : ∀ (rec : List (List Nat × List Nat)) (starts : List (Pi
           simp only [List.flatMap_cons, recPairs] at hnd
           rw [← List.append_assoc, List.map_append] at hnd
           exact (List.nodup_append.mp hnd).1
-        obtain ⟨job, hj1, hj2, hj3, hj4, hj5, hj6⟩ :=
-          start_reissue es ts (rec ++ rest) H (by simpa using h0) hlen hH hnd1 hstep
-        have hnd2 : (((H ++ es.zip ts) ++ rec.flatMap recPairs).map (·.2)).Nodup := by
+        obtain ⟨job, hj1, hj2, hj3, hj3o, hj4, hj4o, hj5, hj6, hj7, hj8⟩ :=
+          start_reissue es ts (recs.map (·.1) ++ rest) ord (recs.map (fun r => some r.2) ++ ordRest) H
+            (by simpa using h0) (by simpa using h0o) hlen hH hnd1 hstep
+        have hnd2 : (((H ++ es.zip ts) ++ recs.flatMap (fun r => recPairs r.1)).map (·.2)).Nodup := by
           simp only [List.flatMap_cons, recPairs] at hnd
           rw [List.append_assoc]
           exact hnd
-        obtain ⟨jobs, k1, k2, k3, k4, k5⟩ := ih starts y1 y' rest (H ++ es.zip ts) (by simpa using hl) hj3 hj6 hj5 hnd2 hrun
-        refine ⟨job :: jobs, ?_, ?_, k3, ?_, ?_⟩
+        obtain ⟨jobs, k1, k2, k3, k3o, k4, k4o, k5, k6, k7⟩ :=
+          ih starts y1 y' rest ordRest (H ++ es.zip ts) (by simpa using hl) hj3 hj3o hj8 hj7 hnd2 hrun
+        refine ⟨job :: jobs, ?_, ?_, k3, k3o, ?_, ?_, ?_, ?_, ?_⟩
         · rw [k1, hj1]; simp
-        · simp only [List.map_cons, k2, hj2]; rfl
-        · rw [k4, hj4]; simp [recEntry]
+        · simp only [List.map_cons, k2, hj2, hj6]
+        · rw [k4, hj4]; simp
+        · rw [k4o, hj4o]; simp
+        · rw [k5, hj5]
+        · rw [k6, hj6]
         · simp only [List.flatMap_cons, recPairs]
           rw [← List.append_assoc]
-          exact k5
+          exact k7
 
-theorem persist_locked_recEntry (rec : List (List Nat × List Nat)) (h : ∀ r ∈ rec, ∀ e ∈ r.1, 1 ≤ e) :
+theorem persist_locked_recEntry (rec : List (List Nat × List Nat)) :
     (rec.map recEntry).map (fun (x : List Int × List Nat) => (x.1.map (fun e => (e + (off : Int)).toNat), x.2)) = rec := by
   induction rec with
   | nil => rfl
   | cons r rec ih =>
     simp only [List.map_cons, List.cons.injEq]
-    refine ⟨?_, ih (fun r' hr' => h r' (List.mem_cons_of_mem _ hr'))⟩
+    refine ⟨?_, ih⟩
     obtain ⟨es, ts⟩ := r
     simp only [recEntry, List.map_map, Prod.mk.injEq, and_true]
     have : ∀ e ∈ es, ((fun e => (e + (off : Int)).toNat) ∘ fun (e : Nat) => (e : Int) - 1) e = e := by
-      intro e he
-      have := h (es, ts) (by simp) e he
+      intro e _
       simp only [Function.comp, off]
       omega
     rw [List.map_congr_left this]
